@@ -539,10 +539,10 @@ def run_property(prop_id, cells, *, rule, assumptions=(), matchers=None, tier="q
         nproc = max(1, int(os.environ["VERIF_WORKERS"]))
     # heaviest first
     tasks.sort(key=lambda t: -(t[2] * cells[t[0]].weight))
-    if nproc <= 1 or len(tasks) == 1:
+    if os.environ.get("VERIF_INPROCESS") == "1":  # debugging only: no time budget is enforced in this mode
         results = [_run_cell_shard(t) for t in tasks]
     else:
-        results = _run_tasks_parallel(tasks, nproc)
+        results = _run_tasks_parallel(tasks, max(1, nproc))
     results.sort(key=lambda r: (r["cell"], r["shard"]))
 
     # aggregate
@@ -583,6 +583,8 @@ def run_property(prop_id, cells, *, rule, assumptions=(), matchers=None, tier="q
     if require_classes and not violations and not errors:
         for cellpat, classes in require_classes.items():
             for cname, pc in per_cell.items():
+                if any(t_["cell"] == cname for t_ in timeouts):
+                    continue  # a shard of this cell was cut short by the time budget: its class counts are incomplete
                 if fnmatch.fnmatch(cname, cellpat) and cname not in excluded and pc["evals"] > 0:
                     for cl in classes:
                         if pc["classes"].get(cl, 0) == 0:
